@@ -344,14 +344,39 @@ def replace_node(m, f, node):
     m._nested(f, node)
 
 
+def final_attributes(repo):
+    """Attribute names that are assigned (anywhere in the package) only inside `__init__`/`init` methods: the object they name never changes."""
+    inside, outside = set(), set()
+    for m in repo.modules.values():
+        for f in m.all_functions:
+            is_init = f.name in ('__init__', 'init') and f.parent is None
+            for w in ast.walk(f.node):
+                if isinstance(w, ast.Attribute) and isinstance(w.ctx, (ast.Store, ast.Del)):
+                    (inside if is_init else outside).add(w.attr)
+                elif isinstance(w, ast.Call) and isinstance(w.func, ast.Name) and w.func.id in ('setattr', 'delattr') and len(w.args) >= 2:
+                    if isinstance(w.args[1], ast.Constant):
+                        outside.add(w.args[1].value)
+        for w in ast.walk(m.tree):          # class-level / module-level stores
+            if isinstance(w, ast.ClassDef):
+                for st in w.body:
+                    if isinstance(st, ast.Assign):
+                        for t in st.targets:
+                            if isinstance(t, ast.Name):
+                                pass
+    return inside - outside
+
+
 def normalise_aliases(repo):
+    """`fifo = self._queue … fifo.popleft()` is shown as `self._queue.popleft()` when `_queue` is a final attribute (see final_attributes)."""
     from . import normalize
     n = 0
+    fin = final_attributes(repo)
+    repo.final_attrs = fin
     for m in repo.modules.values():
         for f in list(m.all_functions):
             if f.parent is not None:
                 continue
-            new = normalize.apply(f.node)
+            new = normalize.apply(f.node, fin)
             if new is not None:
                 replace_node(m, f, new)
                 n += 1
